@@ -90,6 +90,22 @@ func c20write(s *Space, data []byte) (err error) {
 	return Write(s, data)
 }
 
+// c20denyMappings makes every NEW mapping fail with ENOMEM (soft RLIMIT_AS of one page; existing mappings, mprotect and
+// MAP_FIXED inside the Go heap's reserved arena are unaffected), which is what stub.Acquire sees where anonymous W+X
+// mappings are unavailable.  The returned func restores the limit.
+func c20denyMappings() (func(), bool) {
+	var old syscall.Rlimit
+	if err := syscall.Getrlimit(syscall.RLIMIT_AS, &old); err != nil {
+		return func() {}, false
+	}
+	lim := old
+	lim.Cur = 4096
+	if err := syscall.Setrlimit(syscall.RLIMIT_AS, &lim); err != nil {
+		return func() {}, false
+	}
+	return func() { _ = syscall.Setrlimit(syscall.RLIMIT_AS, &old) }, true
+}
+
 // c20kernelGrants reports whether the kernel grants an anonymous RWX mapping of n bytes right now (the oracle of the model).
 func c20kernelGrants(n int) bool {
 	b, err := syscall.Mmap(-1, 0, n, syscall.PROT_READ|syscall.PROT_WRITE|syscall.PROT_EXEC, syscall.MAP_SHARED|syscall.MAP_ANON)
@@ -104,7 +120,13 @@ func c20kernelGrants(n int) bool {
 // It returns "" or a string of !flags.
 func c20check(s *Space, want int, seq uint64, fentry, fend uintptr) string {
 	flags := ""
-	if s.Space == nil || len(*s.Space) != want || cap(*s.Space) < want || len(*s.Space) < want {
+	if s.Space == nil {
+		return "!slice"
+	}
+	if len(*s.Space) < 0 || want < 0 {
+		return "!negative-length-region"
+	}
+	if len(*s.Space) < want || cap(*s.Space) < len(*s.Space) { // "at least as large as requested"
 		return "!slice"
 	}
 	if want > 0 && uintptr(unsafe.Pointer(&(*s.Space)[0])) != s.Addr {
@@ -182,9 +204,10 @@ func c20seq(toks []string, fentry, fend uintptr) string {
 		atomic.StoreUintptr(&placeHolderIns.off, uintptr(vh.U64(toks[1])))
 	}
 	var out []string
+	var mapped []*Space
 	for k, rq := range toks[4:] {
-		n64, err := strconv.ParseUint(rq[1:], 0, 64)
-		if err != nil || n64 > 1<<62 {
+		n64, err := strconv.ParseInt(rq[1:], 0, 64)
+		if err != nil || n64 > 1<<62 || n64 < -(1<<62) {
 			return "bad-op"
 		}
 		n := int(n64)
@@ -194,6 +217,23 @@ func c20seq(toks []string, fentry, fend uintptr) string {
 			if a, b, err := acquireFromHolder(n); err == nil {
 				sp = &Space{Addr: a, Space: b, typ: TypeHolder}
 			}
+		case 'd': // the real Acquire while the kernel refuses every new mapping: the fallback runs for requests that fit
+			restore, ok := c20denyMappings()
+			granted := !ok || c20kernelGrants(4096)
+			var s *Space
+			var err error
+			if !granted {
+				s, err = Acquire(n)
+			}
+			restore()
+			if granted {
+				return "env-mismatch cannot deny mappings"
+			}
+			if (s == nil) != (err != nil) {
+				out = append(out, "!nil-and-err")
+				continue
+			}
+			sp = s
 		case 'm', 'f':
 			if c20kernelGrants(n) != (rq[0] == 'm') {
 				return "env-mismatch kernel answer for " + rq
@@ -212,6 +252,9 @@ func c20seq(toks []string, fentry, fend uintptr) string {
 			continue
 		}
 		flags := c20check(sp, n, uint64(k), fentry, fend)
+		if sp.typ == TypeMMap && sp.Space != nil && len(*sp.Space) > 0 {
+			mapped = append(mapped, sp)
+		}
 		switch sp.typ {
 		case TypeHolder:
 			out = append(out, fmt.Sprintf("H+%d:%d%s", int64(sp.Addr)-int64(min), len(*sp.Space), flags))
@@ -222,6 +265,11 @@ func c20seq(toks []string, fentry, fend uintptr) string {
 		}
 	}
 	out = append(out, fmt.Sprintf("off=+%d", int64(atomic.LoadUintptr(&placeHolderIns.off))-int64(min)))
+	// goom never unmaps; the probe does at the end of each history so that long runs do not pile up mappings
+	for _, m := range mapped {
+		_ = syscall.Munmap(*m.Space)
+	}
+	c20live = c20live[:0]
 	return strings.Join(out, " ")
 }
 
@@ -230,6 +278,9 @@ type c20rec struct {
 	addr      uintptr
 	ok        bool
 	n         int
+	viaAcq    bool    // issued through the real Acquire (primary path) instead of acquireFromHolder
+	typ       int     // type of the Space when viaAcq
+	sl        *[]byte // the slice handed out with the address
 }
 
 // c20crun: T goroutines released from a spin barrier, each issuing its requests back to back.
@@ -244,11 +295,12 @@ func c20crun(toks []string) string {
 	recs := make([][]c20rec, T)
 	for t, p := range per {
 		for _, x := range strings.Split(p, ",") {
-			n, err := strconv.Atoi(x)
+			via := strings.HasPrefix(x, "a")
+			n, err := strconv.Atoi(strings.TrimPrefix(x, "a"))
 			if err != nil || n < 0 {
 				return "bad-op"
 			}
-			recs[t] = append(recs[t], c20rec{n: n})
+			recs[t] = append(recs[t], c20rec{n: n, viaAcq: via})
 		}
 	}
 	old := runtime.GOMAXPROCS(0)
@@ -272,11 +324,21 @@ func c20crun(toks []string) string {
 				if stamps {
 					rs[i].inv = atomic.AddUint64(&clock, 1)
 				}
-				a, _, err := acquireFromHolder(rs[i].n)
+				if rs[i].viaAcq {
+					sp, err := Acquire(rs[i].n)
+					if stamps {
+						rs[i].resp = atomic.AddUint64(&clock, 1)
+					}
+					if err == nil && sp != nil {
+						rs[i].addr, rs[i].ok, rs[i].typ, rs[i].sl = sp.Addr, true, sp.typ, sp.Space
+					}
+					continue
+				}
+				a, b, err := acquireFromHolder(rs[i].n)
 				if stamps {
 					rs[i].resp = atomic.AddUint64(&clock, 1)
 				}
-				rs[i].addr, rs[i].ok = a, err == nil
+				rs[i].addr, rs[i].ok, rs[i].sl, rs[i].typ = a, err == nil, b, TypeHolder
 			}
 		}(recs[t])
 	}
@@ -286,15 +348,42 @@ func c20crun(toks []string) string {
 		addr uintptr
 		n    int
 		id   int
+		sl   *[]byte
+		typ  int
 	}
 	var regs []reg
+	var maps []reg
 	id := 0
+	sliceflaws := 0
 	for t := range recs {
 		for _, r := range recs[t] {
-			if r.ok && r.n > 0 && r.addr >= min && r.addr+uintptr(r.n) <= max {
-				regs = append(regs, reg{r.addr, r.n, id})
+			if r.ok {
+				// the slice handed out with the address must be that region ("at least as large as requested")
+				if r.sl == nil || len(*r.sl) < r.n || cap(*r.sl) < len(*r.sl) ||
+					(r.n > 0 && uintptr(unsafe.Pointer(&(*r.sl)[0])) != r.addr) {
+					sliceflaws++
+				}
+			}
+			if r.ok && r.typ == TypeMMap {
+				maps = append(maps, reg{r.addr, r.n, id, r.sl, r.typ})
+				if r.n > 0 && r.sl != nil && len(*r.sl) >= r.n {
+					regs = append(regs, reg{r.addr, r.n, id, r.sl, r.typ})
+				}
+			} else if r.ok && r.n > 0 && r.addr >= min && r.addr+uintptr(r.n) <= max && r.sl != nil {
+				regs = append(regs, reg{r.addr, r.n, id, r.sl, TypeHolder})
 			}
 			id++
+		}
+	}
+	// mappings handed out concurrently: pairwise disjoint, and disjoint from the reserve
+	mmapdup := 0
+	sort.Slice(maps, func(i, j int) bool { return maps[i].addr < maps[j].addr })
+	for i := range maps {
+		if i+1 < len(maps) && maps[i].addr+uintptr(maps[i].n) > maps[i+1].addr {
+			mmapdup++
+		}
+		if maps[i].addr < max && min < maps[i].addr+uintptr(maps[i].n) {
+			mmapdup++
 		}
 	}
 	pat := func(id, i int) byte { return byte(id*37 + i*11 + 5) }
@@ -303,7 +392,7 @@ func c20crun(toks []string) string {
 		for i := range d {
 			d[i] = pat(r.id, i)
 		}
-		if err := Write(&Space{Addr: r.addr, typ: TypeHolder}, d); err != nil {
+		if err := c20write(&Space{Addr: r.addr, Space: r.sl, typ: r.typ}, d); err != nil {
 			return "!write-err"
 		}
 	}
@@ -324,13 +413,20 @@ func c20crun(toks []string) string {
 	for t := range recs {
 		for _, r := range recs[t] {
 			res := "e"
-			if r.ok {
+			if r.ok && r.typ == TypeMMap {
+				res = "m"
+			} else if r.ok {
 				res = fmt.Sprintf("o%d", int64(r.addr)-int64(min))
 			}
 			out = append(out, fmt.Sprintf("%d:%d:%s", r.inv, r.resp, res))
 		}
 	}
-	return fmt.Sprintf("clobbered=%d off=+%d %s", clobbered, int64(atomic.LoadUintptr(&placeHolderIns.off))-int64(min), strings.Join(out, " "))
+	for _, m := range maps { // goom never unmaps; the probe does, after all checks
+		if m.sl != nil && len(*m.sl) > 0 {
+			_ = syscall.Munmap(*m.sl)
+		}
+	}
+	return fmt.Sprintf("clobbered=%d off=+%d sliceflaws=%d mmapdup=%d %s", clobbered, int64(atomic.LoadUintptr(&placeHolderIns.off))-int64(min), sliceflaws, mmapdup, strings.Join(out, " "))
 }
 
 // c20writes: `c20.writes <m|h> <len> <n>` — acquire one region on the given path and write it n times through stub.Write.
@@ -382,6 +478,82 @@ func c20writes(toks []string) string {
 		return "ok perm=rx"
 	}
 	return "ok perm=" + pm
+}
+
+// c20owrite: `c20.owrite <m|h> <regionLen> <dataLen>` — one stub.Write of dataLen bytes into a freshly acquired region of
+// regionLen bytes whose surroundings hold a known pattern.  Observation: `err`, or how many bytes of data were stored,
+// how many were silently dropped, and how many bytes PAST the region's end changed (reserve: the neighbouring region;
+// mapping: the rest of the page).
+func c20owrite(toks []string) string {
+	rl, _ := strconv.Atoi(toks[2])
+	dl, _ := strconv.Atoi(toks[3])
+	if rl < 1 || dl < 0 || rl > 2048 || dl > 4096 {
+		return "bad-op"
+	}
+	var sp *Space
+	span := rl + 4096 // bytes observed from the region's start
+	if toks[1] == "m" {
+		s, err := Acquire(rl)
+		if err != nil || s.typ != TypeMMap {
+			return "env-mismatch no mapping"
+		}
+		sp = s
+		span = 4096 // the mapping is one page
+		defer func() { _ = syscall.Munmap(*s.Space) }()
+	} else {
+		atomic.StoreUintptr(&placeHolderIns.off, placeHolderIns.min)
+		a, b, err := acquireFromHolder(rl)
+		if err != nil {
+			return "env-mismatch reserve"
+		}
+		sp = &Space{Addr: a, Space: b, typ: TypeHolder}
+		// the neighbours: the regions that would be handed out next
+		na, nb, err := acquireFromHolder(4096)
+		if err != nil || na != a+uintptr(rl) {
+			return "env-mismatch reserve neighbour"
+		}
+		fill := make([]byte, 4096)
+		for i := range fill {
+			fill[i] = 0xA5
+		}
+		if err := c20write(&Space{Addr: na, Space: nb, typ: TypeHolder}, fill); err != nil {
+			return "env-mismatch neighbour write"
+		}
+	}
+	view := *(*[]byte)(unsafe.Pointer(&struct {
+		p    uintptr
+		l, c int
+	}{sp.Addr, span, span}))
+	before := append([]byte(nil), view...)
+	data := make([]byte, dl)
+	for i := range data {
+		data[i] = byte(0x11 + i*5)
+		if i < len(before) && data[i] == before[i] {
+			data[i] ^= 0x40 // every stored byte is a visible change
+		}
+	}
+	if err := c20write(sp, data); err != nil {
+		if strings.Contains(err.Error(), "fault") {
+			return "fault"
+		}
+		for i := range before {
+			if view[i] != before[i] {
+				return "err-but-wrote"
+			}
+		}
+		return "err"
+	}
+	stored := 0
+	for stored < dl && stored < span && view[stored] == data[stored] {
+		stored++
+	}
+	beyond := 0
+	for i := rl; i < span; i++ {
+		if view[i] != before[i] {
+			beyond++
+		}
+	}
+	return fmt.Sprintf("wrote=%d dropped=%d beyond=%d", stored, dl-stored, beyond)
 }
 
 // c20cwrite: `c20.cwrite <off> <min> <max> <writers> <regions per writer> <len> <rounds>` — regions are taken from the
@@ -501,6 +673,8 @@ func TestVerifC20(t *testing.T) {
 				atomic.LoadUintptr(&placeHolderIns.off), name, fentry, fend, strings.Join(ws, ","), syscall.Getpagesize())
 		case op.Toks[0] == "c20.seq" && len(op.Toks) >= 4:
 			out.Put(op.Idx, "%s", c20seq(op.Toks, fentry, fend))
+		case op.Toks[0] == "c20.owrite" && len(op.Toks) == 4:
+			out.Put(op.Idx, "%s", c20owrite(op.Toks))
 		case op.Toks[0] == "c20.writes" && len(op.Toks) == 4:
 			out.Put(op.Idx, "%s", c20writes(op.Toks))
 		case op.Toks[0] == "c20.cwrite" && len(op.Toks) == 8:
